@@ -13,6 +13,13 @@ Families (alphabets):
          C:<client>/<accept> for def/inh file/inh val/inh def/file def/val (connection, kept open),
          X (close the oldest connection), XS (close the oldest server)
   files  the file-update part of main with default configurations only (goes one level deeper)
+  kube   credential paths whose FINAL component is a symlink that is never replaced (Kubernetes secret volume:
+         kube/<item>.pem -> ..data/<item>.pem, ..data -> ..gen1|..gen2): KDP (re-point ..data with symlink+rename),
+         KRW / KMV (rewrite cert+key of the current generation in place with fresh mtime / rename new files over
+         them), KTW / KTM (the same for the trust bundle: root2+root <-> root only, which flips the acceptance
+         of client c2 of the other trust domain), ENK (XCM_TLS_CERT kube <-> live: default-directory form),
+         S:def|kube, C:def/inh kube/inh def/kube c2/inh, X, XS.  The model takes what the path RESOLVES to at
+         call time.
   split  by-value configurations whose item boundaries differ but whose concatenation is equal
          (s1: cert=leaf+intermediate,key=key  s2: cert=leaf,key=intermediate+key;
           s3: key=key+root2,tc=root  s4: key=key,tc=root2+root), s5 = s4 with tc=root only (differs in ONE item),
@@ -77,13 +84,13 @@ def plan(tier):
     The deepest levels come last so that a tier deadline cuts those."""
     bad = bad_families()
     if tier == "quick":
-        return [[("main", 3, "plain")], [("split", 3, "plain")], [("files", 4, "plain")],
-                [("main", 2, "asan"), ("split", 2, "asan")],
+        return [[("main", 3, "plain")], [("kube", 3, "plain")], [("split", 3, "plain")], [("files", 4, "plain")],
+                [("main", 2, "asan"), ("split", 2, "asan"), ("kube", 2, "asan")],
                 [(f, 3, "plain") for f in bad]]
     # main contains the alphabets of files and attrs, so main d covers them to depth d
-    return [[("main", 4, "plain")], [("split", 4, "plain")],
+    return [[("main", 4, "plain")], [("kube", 4, "plain")], [("split", 4, "plain")],
             [(f, 4, "plain") for f in bad],
-            [("main", 3, "asan"), ("split", 3, "asan")],
+            [("main", 3, "asan"), ("split", 3, "asan"), ("kube", 3, "asan")],
             [(f, 2, "asan") for f in bad],
             [(f, 5, "plain") for f in bad],
             [("files", 6, "plain")], [("main", 5, "plain")]]
